@@ -303,10 +303,12 @@ pub(crate) fn recv_batch_sync<T: Send>(
 
     let final_state = done_flag.load(Ordering::Acquire);
     if (final_state & 0x02) == 0 {
+      // Woken because the last sender left: drain what was sent before
+      // reporting Disconnected (Phase 1 does exactly that).
       let mut guard = receiver.shared.internal.lock();
       guard.waiting_sync_receivers.retain(|w| w.state != done_ptr);
       drop(guard);
-      return Err(RecvError::Disconnected);
+      continue;
     }
   }
 }
@@ -355,10 +357,12 @@ pub(crate) fn recv_sync<T: Send>(receiver: &Receiver<T>) -> Result<T, RecvError>
 
     let final_state = done_flag.load(Ordering::Acquire);
     if (final_state & 0x02) == 0 {
+      // Woken because the last sender left: drain what was sent before
+      // reporting Disconnected (Phase 1 does exactly that).
       let mut guard = receiver.shared.internal.lock();
       guard.waiting_sync_receivers.retain(|w| w.state != done_ptr);
       drop(guard);
-      return Err(RecvError::Disconnected);
+      continue;
     }
   }
 }
